@@ -561,13 +561,17 @@ func init() {
 				case *ast.CallExpr:
 					// nextFns[ii.index]()
 					if ix, ok := ast.Unparen(x.Fun).(*ast.IndexExpr); ok {
-						if sel, ok := ast.Unparen(ix.Index).(*ast.SelectorExpr); ok && sel.Sel.Name == "index" && prog.IdentObj(mi, sel.X) == popped {
+						if sel, ok := deref(mi, ix.Index).(*ast.SelectorExpr); ok && sel.Sel.Name == "index" && prog.IdentObj(mi, sel.X) == popped {
 							okRefill = true
 						}
 					}
 					if r.P.CalleeFunc(mi, x) == push && len(x.Args) == 1 {
 						if cl, ok := ast.Unparen(x.Args[0]).(*ast.CompositeLit); ok && len(cl.Elts) == 2 {
-							if sel, ok := ast.Unparen(cl.Elts[0]).(*ast.SelectorExpr); ok && sel.Sel.Name == "index" && prog.IdentObj(mi, sel.X) == popped {
+							first := cl.Elts[0]
+							if kv, ok := first.(*ast.KeyValueExpr); ok {
+								first = kv.Value
+							}
+							if sel, ok := deref(mi, first).(*ast.SelectorExpr); ok && sel.Sel.Name == "index" && prog.IdentObj(mi, sel.X) == popped {
 								okPush = true
 							}
 						}
